@@ -17,7 +17,6 @@ Import ListNotations.
 Local Open Scope nat_scope.
 
 (* ------------------------------------------------------------------------------------------------ strings *)
-
 Fixpoint dec_aux (fuel n : nat) (acc : str) : str :=
   match fuel with
   | 0 => acc
@@ -70,6 +69,13 @@ Definition ostr_eqb (a b : option str) : bool :=
   | _, _ => false
   end.
 
+Definition S_NOT : str := [91; 78; 79; 84; 93]%N.                                        (* "[NOT]" *)
+Definition S_LOOKAHEAD : str := [91; 76; 79; 79; 75; 65; 72; 69; 65; 68; 93]%N.          (* "[LOOKAHEAD]" *)
+Definition S_LOOKBEHIND : str := [91; 76; 79; 79; 75; 66; 69; 72; 73; 78; 68; 93]%N.     (* "[LOOKBEHIND]" *)
+Definition S_TOKENCONVERTER : str := [116; 111; 107; 101; 110; 99; 111; 110; 118; 101; 114; 116; 101; 114]%N.
+Definition ELLIPSIS : str := [46; 46; 46]%N.                                             (* "..." *)
+Definition UNNAMED : str := [85; 110; 110; 97; 109; 101; 100; 32]%N.                     (* "Unnamed " *)
+
 (* ------------------------------------------------------------------------------------------------ grammar graph *)
 Definition id := nat.
 Definition ref := nat.
@@ -100,14 +106,15 @@ Definition graph := list (id * node).
 
 Definition dummy_node : node :=
   {| n_kind := KOther; n_custom := None; n_rname := None; n_modal := true; n_show := true; n_vis := true;
-     n_tname := ([63]%N (* "?" *)); n_dname := ([63]%N (* "?" *)); n_pat := []; n_kids := [] |}.
+     n_tname := [63%N]; n_dname := [63%N]; n_pat := []; n_kids := [] |}.
 
 Fixpoint assoc {A} (k : nat) (l : list (nat * A)) : option A :=
   match l with
   | [] => None
   | (k', v) :: t => if k =? k' then Some v else assoc k t
   end.
-Fixpoint assoc_set {A} (k : nat) (v : A) (l : list (nat * A)) : list (nat * A) :=   (* dict[k] = v : keeps the position of an existing key *)
+(* dict[k] = v : keeps the position of an existing key *)
+Fixpoint assoc_set {A} (k : nat) (v : A) (l : list (nat * A)) : list (nat * A) :=
   match l with
   | [] => [(k, v)]
   | (k', v') :: t => if k =? k' then (k, v) :: t else (k', v') :: assoc_set k v t
@@ -154,6 +161,7 @@ Record cstate := {
   c_states : list (id * estate);
   c_diagrams : list (id * dentry);      (* insertion ordered, like the dict *)
   c_index : nat;
+  c_unnamed : nat;                      (* ConverterState.unnamed_index *)
   c_bm : list (str * str);              (* _bookmark_lookup *)
   c_bmnext : nat;                       (* next value of _bookmark_ids *)
   c_maxdepth : nat;
@@ -161,29 +169,33 @@ Record cstate := {
 }.
 
 Definition init_state : cstate :=
-  {| c_heap := []; c_states := []; c_diagrams := []; c_index := 0; c_bm := []; c_bmnext := 1; c_maxdepth := 0; c_err := false |}.
+  {| c_heap := []; c_states := []; c_diagrams := []; c_index := 0; c_unnamed := 1; c_bm := []; c_bmnext := 1;
+     c_maxdepth := 0; c_err := false |}.
 
 Definition set_heap (st : cstate) (h : list pnode) : cstate :=
-  {| c_heap := h; c_states := c_states st; c_diagrams := c_diagrams st; c_index := c_index st; c_bm := c_bm st;
-     c_bmnext := c_bmnext st; c_maxdepth := c_maxdepth st; c_err := c_err st |}.
+  {| c_heap := h; c_states := c_states st; c_diagrams := c_diagrams st; c_index := c_index st; c_unnamed := c_unnamed st;
+     c_bm := c_bm st; c_bmnext := c_bmnext st; c_maxdepth := c_maxdepth st; c_err := c_err st |}.
 Definition set_states (st : cstate) (s : list (id * estate)) : cstate :=
-  {| c_heap := c_heap st; c_states := s; c_diagrams := c_diagrams st; c_index := c_index st; c_bm := c_bm st;
-     c_bmnext := c_bmnext st; c_maxdepth := c_maxdepth st; c_err := c_err st |}.
+  {| c_heap := c_heap st; c_states := s; c_diagrams := c_diagrams st; c_index := c_index st; c_unnamed := c_unnamed st;
+     c_bm := c_bm st; c_bmnext := c_bmnext st; c_maxdepth := c_maxdepth st; c_err := c_err st |}.
 Definition set_diagrams (st : cstate) (d : list (id * dentry)) : cstate :=
-  {| c_heap := c_heap st; c_states := c_states st; c_diagrams := d; c_index := c_index st; c_bm := c_bm st;
-     c_bmnext := c_bmnext st; c_maxdepth := c_maxdepth st; c_err := c_err st |}.
+  {| c_heap := c_heap st; c_states := c_states st; c_diagrams := d; c_index := c_index st; c_unnamed := c_unnamed st;
+     c_bm := c_bm st; c_bmnext := c_bmnext st; c_maxdepth := c_maxdepth st; c_err := c_err st |}.
 Definition set_index (st : cstate) (i : nat) : cstate :=
-  {| c_heap := c_heap st; c_states := c_states st; c_diagrams := c_diagrams st; c_index := i; c_bm := c_bm st;
-     c_bmnext := c_bmnext st; c_maxdepth := c_maxdepth st; c_err := c_err st |}.
+  {| c_heap := c_heap st; c_states := c_states st; c_diagrams := c_diagrams st; c_index := i; c_unnamed := c_unnamed st;
+     c_bm := c_bm st; c_bmnext := c_bmnext st; c_maxdepth := c_maxdepth st; c_err := c_err st |}.
+Definition set_unnamed (st : cstate) (k : nat) : cstate :=
+  {| c_heap := c_heap st; c_states := c_states st; c_diagrams := c_diagrams st; c_index := c_index st; c_unnamed := k;
+     c_bm := c_bm st; c_bmnext := c_bmnext st; c_maxdepth := c_maxdepth st; c_err := c_err st |}.
 Definition set_bm (st : cstate) (t : list (str * str)) (n : nat) : cstate :=
-  {| c_heap := c_heap st; c_states := c_states st; c_diagrams := c_diagrams st; c_index := c_index st; c_bm := t;
-     c_bmnext := n; c_maxdepth := c_maxdepth st; c_err := c_err st |}.
+  {| c_heap := c_heap st; c_states := c_states st; c_diagrams := c_diagrams st; c_index := c_index st; c_unnamed := c_unnamed st;
+     c_bm := t; c_bmnext := n; c_maxdepth := c_maxdepth st; c_err := c_err st |}.
 Definition note_depth (d : nat) (st : cstate) : cstate :=
-  {| c_heap := c_heap st; c_states := c_states st; c_diagrams := c_diagrams st; c_index := c_index st; c_bm := c_bm st;
-     c_bmnext := c_bmnext st; c_maxdepth := Nat.max (c_maxdepth st) d; c_err := c_err st |}.
+  {| c_heap := c_heap st; c_states := c_states st; c_diagrams := c_diagrams st; c_index := c_index st; c_unnamed := c_unnamed st;
+     c_bm := c_bm st; c_bmnext := c_bmnext st; c_maxdepth := Nat.max (c_maxdepth st) d; c_err := c_err st |}.
 Definition set_err (st : cstate) : cstate :=
-  {| c_heap := c_heap st; c_states := c_states st; c_diagrams := c_diagrams st; c_index := c_index st; c_bm := c_bm st;
-     c_bmnext := c_bmnext st; c_maxdepth := c_maxdepth st; c_err := true |}.
+  {| c_heap := c_heap st; c_states := c_states st; c_diagrams := c_diagrams st; c_index := c_index st; c_unnamed := c_unnamed st;
+     c_bm := c_bm st; c_bmnext := c_bmnext st; c_maxdepth := c_maxdepth st; c_err := true |}.
 
 Definition alloc (p : pnode) (st : cstate) : ref * cstate := (length (c_heap st), set_heap st (c_heap st ++ [p])).
 
@@ -298,12 +310,12 @@ Definition choose (G : graph) (o : opts) (x : id) (name : str) : option pnode :=
   | KOr => match es with [] => None | _ =>
               if should_vertical G o es then mk FChoice (SItems []) else mk FHChoice (SItems []) end
   | KEach => match es with [] => None | _ => mk FEach (SItems []) end
-  | KNotAny => mk (FAnnot ([91; 78; 79; 84; 93]%N (* "[NOT]" *))) (SItem IVEmpty)
-  | KFollowedBy => mk (FAnnot ([91; 76; 79; 79; 75; 65; 72; 69; 65; 68; 93]%N (* "[LOOKAHEAD]" *))) (SItem IVEmpty)
-  | KPrecededBy => mk (FAnnot ([91; 76; 79; 79; 75; 66; 69; 72; 73; 78; 68; 93]%N (* "[LOOKBEHIND]" *))) (SItem IVEmpty)
+  | KNotAny => mk (FAnnot S_NOT) (SItem IVEmpty)
+  | KFollowedBy => mk (FAnnot S_LOOKAHEAD) (SItem IVEmpty)
+  | KPrecededBy => mk (FAnnot S_LOOKBEHIND) (SItem IVEmpty)
   | KGroup => if o_groups o then mk (FAnnot []) (SItem IVEmpty) else mk (FGroup (n_rname n)) (SItem IVNone)
   | KTokConv => let label := lower (n_tname n) in
-                if str_eqb label ([116; 111; 107; 101; 110; 99; 111; 110; 118; 101; 114; 116; 101; 114]%N (* "tokenconverter" *)) then mk FSequence (SItems [])
+                if str_eqb label S_TOKENCONVERTER then mk FSequence (SItems [])
                 else mk (FAnnot (91%N :: label ++ [93%N])) (SItem IVEmpty)
   | KOpt => mk FOptional (SItem IVEmpty)
   | KOneOrMore => mk (FOneOrMore None) (SItem IVNone)
@@ -351,9 +363,20 @@ Definition place (st : cstate) (r : ref) (i : nat) (item : option ref) : nat * c
   | None => (i, with_items st r (remove_at i))
   end.
 
+Definition set_name (s : estate) (nm : option str) : estate :=
+  {| es_conv := es_conv s; es_parent := es_parent s; es_pidx := es_pidx s; es_number := es_number s;
+     es_name := nm; es_extract := es_extract s; es_complete := es_complete s |}.
+Definition set_complete (s : estate) : estate :=
+  {| es_conv := es_conv s; es_parent := es_parent s; es_pidx := es_pidx s; es_number := es_number s;
+     es_name := es_name s; es_extract := es_extract s; es_complete := true |}.
+
 Section Conv.
   Variable G : graph.
   Variable o : opts.
+  (* fx = false: the repeat test of the pinned tree (`looked_up.name is not None`);
+     fx = true: the repaired test of notes/C20-fix.diff (`... or not looked_up.complete`, where the unnamed in-progress
+     element is first named "Unnamed <n>").  Gen/GenDiagram.v says which of the two /repo contains. *)
+  Variable fx : bool.
 
   Fixpoint kids_loop (rec : id -> option ref -> nat -> cstate -> res (option ref) * cstate)
                      (r : ref) (es : list id) (i : nat) (st : cstate) : res unit * cstate :=
@@ -365,6 +388,12 @@ Section Conv.
       | (Ok item, st2) => let '(i', st3) := place st2 r i item in kids_loop rec r es' i' st3
       | (OutOfFuel, st2) => (OutOfFuel, st2)
       end
+    end.
+
+  Definition in_diagrams (x : id) (st : cstate) : option (ref * cstate) :=
+    match assoc x (c_diagrams st) with
+    | Some d => Some (new_nonterminal (d_name d) st)
+    | None => None
     end.
 
   (* the repeat test at the top of _to_diagram_element: Some = "return this NonTerminal" *)
@@ -381,16 +410,15 @@ Section Conv.
                     else if truthy (n_custom (gnode G x)) then n_custom (gnode G x) else Some [] in
           Some (new_nonterminal (oname nm) st)
         | None =>
-          match assoc x (c_diagrams st) with
-          | Some d => Some (new_nonterminal (d_name d) st)
-          | None => None
-          end
+          if fx && negb (es_complete s) then
+            let k := S (c_unnamed st) in
+            let nm := UNNAMED ++ dec k in
+            let st := set_unnamed (set_states st (assoc_set x (set_name s (Some nm)) (c_states st))) k in
+            let st := mark_for_extraction G x hint false st in
+            Some (new_nonterminal nm st)
+          else in_diagrams x st
         end
-      | None =>
-        match assoc x (c_diagrams st) with
-        | Some d => Some (new_nonterminal (d_name d) st)
-        | None => None
-        end
+      | None => in_diagrams x st
       end
     else None.
 
@@ -404,9 +432,7 @@ Section Conv.
     let '(ret, st) := if empty then alloc {| p_func := FTerminal name; p_slot := SLeaf |} st else (r, st) in
     let st :=
       match assoc x (c_states st) with
-      | Some s => set_states st (assoc_set x {| es_conv := es_conv s; es_parent := es_parent s; es_pidx := es_pidx s;
-                                               es_number := es_number s; es_name := es_name s;
-                                               es_extract := es_extract s; es_complete := true |} (c_states st))
+      | Some s => set_states st (assoc_set x (set_complete s) (c_states st))
       | None => st
       end in
     let '(ret, st) :=
@@ -420,6 +446,17 @@ Section Conv.
       | None => (ret, st)
       end in
     wrap_rn G o x (Some ret) st.
+
+  (* lookup[el_id] = ElementState(...) ; if element.customName: mark_for_extraction *)
+  Definition create (x : id) (pn : pnode) (parent : option ref) (index : nat) (st : cstate) : ref * cstate :=
+    let '(r, st) := alloc pn st in
+    let number := S (c_index st) in
+    let st := set_index st number in
+    let st := set_states st (assoc_set x {| es_conv := r; es_parent := parent; es_pidx := index; es_number := number;
+                                            es_name := None; es_extract := false; es_complete := false |}
+                                       (c_states st)) in
+    let st := if truthy (n_custom (gnode G x)) then mark_for_extraction G x (n_custom (gnode G x)) false st else st in
+    (r, st).
 
   Fixpoint conv (fuel d : nat) (x : id) (parent : option ref) (index : nat) (hint : option str) (st : cstate)
     : res (option ref) * cstate :=
@@ -444,13 +481,7 @@ Section Conv.
             match choose G o x name with
             | None => (Ok None, st)
             | Some pn =>
-              let '(r, st) := alloc pn st in
-              let number := S (c_index st) in
-              let st := set_index st number in
-              let st := set_states st (assoc_set x {| es_conv := r; es_parent := parent; es_pidx := index; es_number := number;
-                                                      es_name := None; es_extract := false; es_complete := false |}
-                                                 (c_states st)) in
-              let st := if truthy (n_custom (gnode G x)) then mark_for_extraction G x (n_custom (gnode G x)) false st else st in
+              let '(r, st) := create x pn parent index st in
               match kids_loop (fun e p i s => conv f (S d) e p i None s) r (kids G x) 0 st with
               | (Ok _, st) => let '(ret, st) := finish x name r st in (Ok ret, st)
               | (OutOfFuel, st) => (OutOfFuel, st)
@@ -493,8 +524,6 @@ Definition resolve_ival (h : list pnode) (v : ival) : item :=
 
 Record odiag := { od_name : str; od_index : nat; od_bookmark : str; od_item : item }.
 
-Definition ELLIPSIS : str := ([46; 46; 46]%N (* "..." *)).
-
 (* the de-duplication loop of to_railroad *)
 Fixpoint dedup (seen : list str) (ds : list dentry) : list dentry :=
   match ds with
@@ -512,38 +541,41 @@ Fixpoint insert_sorted (d : dentry) (l : list dentry) : list dentry :=
   end.
 Definition sort_by_index (l : list dentry) : list dentry := fold_right insert_sorted [] l.   (* sorted(): stable *)
 
-(* NamedDiagram.bookmark, evaluated in output order *)
+(* NamedDiagram.bookmark, evaluated in output order; the heap does not change any more *)
 Fixpoint emit (ds : list dentry) (st : cstate) : list odiag * cstate :=
   match ds with
   | [] => ([], st)
   | d :: t =>
-    let '(b, st) := make_bookmark (d_name d) st in
-    let '(out, st) := emit t st in
-    ({| od_name := d_name d; od_index := d_index d; od_bookmark := b; od_item := resolve_ival (c_heap st) (d_content d) |} :: out, st)
+    let '(b, st1) := make_bookmark (d_name d) st in
+    let '(out, st2) := emit t st1 in
+    ({| od_name := d_name d; od_index := d_index d; od_bookmark := b; od_item := resolve_ival (c_heap st) (d_content d) |} :: out, st2)
   end.
 
-Definition to_railroad_from (G : graph) (o : opts) (root : id) (fuel : nat) (st0 : cstate) : res (list odiag) * cstate :=
-  match conv G o fuel 1 root None 0 None st0 with
+(* the part of to_railroad after the top-level _to_diagram_element call, up to `diags = list(lookup.diagrams.values())` *)
+Definition root_extract (G : graph) (root : id) (st : cstate) : cstate :=
+  match assoc root (c_states st) with
+  | Some s =>
+    let st := if truthy (n_custom (gnode G root)) then st
+              else set_states st (assoc_set root (set_name s (Some [])) (c_states st)) in
+    mark_for_extraction G root None true st
+  | None => st
+  end.
+
+Definition select (diags : list dentry) : list dentry :=
+  sort_by_index match diags with _ :: _ :: _ => dedup [] diags | _ => diags end.
+
+Definition to_railroad_from (G : graph) (o : opts) (fx : bool) (root : id) (fuel : nat) (st0 : cstate)
+  : res (list odiag) * cstate :=
+  match conv G o fx fuel 1 root None 0 None st0 with
   | (OutOfFuel, st) => (OutOfFuel, st)
   | (Ok _, st) =>
-    let st :=
-      match assoc root (c_states st) with
-      | Some s =>
-        let st := if truthy (n_custom (gnode G root)) then st
-                  else set_states st (assoc_set root {| es_conv := es_conv s; es_parent := es_parent s; es_pidx := es_pidx s;
-                                                        es_number := es_number s; es_name := Some []; es_extract := es_extract s;
-                                                        es_complete := es_complete s |} (c_states st)) in
-        mark_for_extraction G root None true st
-      | None => st
-      end in
-    let diags := map snd (c_diagrams st) in
-    let kept := match diags with _ :: _ :: _ => dedup [] diags | _ => diags end in
-    let '(out, st) := emit (sort_by_index kept) st in
+    let st := root_extract G root st in
+    let '(out, st) := emit (select (map snd (c_diagrams st))) st in
     (Ok out, st)
   end.
 
-Definition to_railroad (G : graph) (o : opts) (root : id) (fuel : nat) : res (list odiag) * cstate :=
-  to_railroad_from G o root fuel init_state.
+Definition to_railroad (G : graph) (o : opts) (fx : bool) (root : id) (fuel : nat) : res (list odiag) * cstate :=
+  to_railroad_from G o fx root fuel init_state.
 
 (* Python frames used by a conversion whose deepest _to_diagram_element call is at depth d (root call = 1):
    two per call (decorator + function); the frames below to_railroad and the leaf calls are not counted. *)
